@@ -354,7 +354,7 @@ func checkParseCase(prop string, c *parseCase, col0 *collector, held *[]heldErr)
 			}
 		}
 		keptVectors = append(keptVectors, keptVec{kept, want, c.Ver}) // the very string returned; re-read at the end of the run
-		if kept != want { // the first string must not have been rewritten by the later calls
+		if kept != want {                                             // the first string must not have been rewritten by the later calls
 			col.violate(Violation{Property: prop, Kind: "canonical string changed after later calls", Version: c.Ver, Input: inputRec(b), Expected: want, Observed: kept})
 		}
 	case "C18":
